@@ -1,11 +1,131 @@
 import StorageModel.Driver.Common
+import StorageModel.C16.Model
 /- model driver for C16: `run spec` reads case lines on stdin and prints one output line per case
-   (spec = false: the engine model's output; spec = true: the spec's verdict). -/
+   (spec = false: the engine model's output; spec = true: the spec's verdict).
+   Case and output formats: see /verif/harness/c16.go. -/
 namespace StorageModel.Driver.C16
-open StorageModel.Driver
+open StorageModel StorageModel.Driver StorageModel.C16
 
-def step (_line : String) : String := "not-implemented"
-def specStep (_line : String) : String := "not-implemented"
+abbrev Key := Bytes
+abbrev Nm := Bytes
+
+def parseKey (s : String) : Key := (Bytes.ofHex s).getD []
+
+/-- the checker lets `name` through iff it is nil ("n") or lists "name" -/
+def checkerSetsName (c : String) : Bool :=
+  c = "n" || (c != "-" && (c.splitOn ",").contains "name")
+
+/-- `topSys`: the context handed to Db.Update is a system context, so every operation's context is -/
+def parseOp (topSys : Bool) (s : String) : Option (Op Key Nm) :=
+  match s.splitOn ":" with
+  | ["c", ctx, id, flag, name] =>
+    some (.create (topSys || ctx = "s") (parseKey id) (parseKey id).isEmpty (flag = "t") (parseKey name))
+  | ["u", ctx, id, flag, name, ch] =>
+    some (.update (topSys || ctx = "s") (parseKey id) (flag = "t") (parseKey name) (checkerSetsName ch))
+  | ["d", ctx, id] => some (.delete (topSys || ctx = "s") (parseKey id))
+  | ["r", id] => some (.read (parseKey id))
+  | _ => none
+
+def tf (b : Bool) : String := if b then "t" else "f"
+
+def showErr : Err → String
+  | .sysCreate => "!sysCreate"
+  | .sysUpdate => "!sysUpdate"
+  | .sysDelete => "!sysDelete"
+  | .notFound => "!notFound"
+  | .exists => "!exists"
+  | .blank => "!blank"
+
+def viewModel (s : St Key Nm) (pool : List Key) : String :=
+  String.join (pool.map fun id =>
+    Bytes.toWire id ++ "=" ++ (match s.get id with
+      | none => "f///-"
+      | some e => "t/" ++ tf e.isSystem ++ "/" ++ Bytes.toWire e.name ++ "/" ++
+          (match e.flag with | none => "-" | some true => "t" | some false => "f")) ++ ";")
+
+def readModel (s : St Key Nm) (id : Key) : String :=
+  match s.get id with
+  | none => "none"
+  | some e => tf e.isSystem ++ "/" ++ Bytes.toWire e.name
+
+def opResult (s : St Key Nm) (op : Op Key Nm) (o : Out Key Nm) : String :=
+  match o.err with
+  | some e => showErr e
+  | none => match op with
+    | .read id => readModel s id
+    | _ => "ok"
+
+def runTxModel (s : St Key Nm) (keepGoing : Bool) (ops : List (Op Key Nm)) (pool : List Key) : St Key Nm × String :=
+  let rec go (cur : St Key Nm) (ops : List (Op Key Nm)) (acc : List String) : St Key Nm × List String × String :=
+    match ops with
+    | [] => (cur, acc.reverse, "")
+    | op :: rest =>
+      let o := StorageModel.C16.step cur op
+      match o.err with
+      | none => go o.st rest (opResult cur op o :: acc)
+      | some e =>
+        if keepGoing && e ≠ .sysCreate then go o.st rest (showErr e :: acc)
+        else (s, (showErr e :: acc).reverse, viewModel o.st pool)
+  let r := go s ops []
+  (r.1, ";".intercalate r.2.1 ++ "|" ++ r.2.2 ++ "|" ++ viewModel r.1 pool)
+
+def parseTx (t : String) : Bool × Bool × List String :=
+  match t.splitOn "!" with
+  | [head, body] => (head.startsWith "S", head.endsWith "k", body.splitOn ";")
+  | _ => (false, false, [])
+
+def step (line : String) : String :=
+  match splitSp line with
+  | _kind :: p :: txs =>
+    let pool := (p.splitOn ",").map parseKey
+    let r := txs.foldl (fun (acc : St Key Nm × List String) t =>
+      let (topSys, keep, ops) := parseTx t
+      let o := runTxModel acc.1 keep (ops.filterMap (parseOp topSys)) pool
+      (o.1, acc.2 ++ [o.2])) (([] : St Key Nm), [])
+    " ".intercalate r.2
+  | _ => "bad-case"
+
+/-! ### spec: failing calls only *fail* (`!`), uncommitted partial states are not described (`*`),
+    and the storage form of the flag is not part of the property (last field of a view entry `_`) -/
+
+def viewSpec (s : SSt Key Nm) (pool : List Key) : String :=
+  String.join (pool.map fun id =>
+    Bytes.toWire id ++ "=" ++ (match s.get id with
+      | none => "f///_"
+      | some e => "t/" ++ tf e.1 ++ "/" ++ Bytes.toWire e.2 ++ "/_") ++ ";")
+
+def runTxSpec (s : SSt Key Nm) (keepGoing : Bool) (ops : List (Op Key Nm)) (pool : List Key) : SSt Key Nm × String :=
+  let rec go (cur : SSt Key Nm) (ops : List (Op Key Nm)) (acc : List String) : SSt Key Nm × List String × String :=
+    match ops with
+    | [] => (cur, acc.reverse, "")
+    | op :: rest =>
+      match sstep cur op with
+      | some s' =>
+        let res := match op with
+          | .read id => (match cur.get id with | none => "none" | some e => tf e.1 ++ "/" ++ Bytes.toWire e.2)
+          | _ => "ok"
+        go s' rest (res :: acc)
+      | none =>
+        -- a refused create always aborts the body; other failures only in abort mode
+        let isCreate := match op with | .create .. => true | _ => false
+        let refusedCreate := match op with
+          | .create sys id blank flag _ => !blank && (cur.get id).isNone && flag && !sys
+          | _ => false
+        if keepGoing && !(isCreate && refusedCreate) then go cur rest ("!" :: acc)
+        else (s, ("!" :: acc).reverse, "*")
+  let r := go s ops []
+  (r.1, ";".intercalate r.2.1 ++ "|" ++ r.2.2 ++ "|" ++ viewSpec r.1 pool)
+
+def specStep (line : String) : String :=
+  match splitSp line with
+  | _kind :: p :: txs =>
+    let pool := (p.splitOn ",").map parseKey
+    let r := txs.foldl (fun (acc : SSt Key Nm × List String) t =>
+      let (topSys, keep, ops) := parseTx t
+      let o := runTxSpec acc.1 keep (ops.filterMap (parseOp topSys)) pool
+      (o.1, acc.2 ++ [o.2])) (([] : SSt Key Nm), [])
+    " ".intercalate r.2
+  | _ => "bad-case"
 
 def run (spec : Bool) : IO Unit := forEachLine (if spec then specStep else step)
 
